@@ -230,4 +230,25 @@ example :
       = (80, 50, 0, MAXU) := by
   decide
 
+/-- **required_after_is_history_free.** The planner's answer is a function of the block, the
+    transaction index and the address alone (it is `requiredSpec`): nothing that was asked before
+    can change it.  A cache of "settled" accounts that answers zero for them afterwards (seeded
+    change C06e) is refuted by any block in which an account is asked about first at a late index
+    and then at an early one: -/
+theorem settled_cache_depends_on_query_order :
+    let txs : List Tx := [⟨1, some 10⟩, ⟨7, some 30⟩, ⟨2, none⟩, ⟨1, some 5⟩]
+    requiredAfter txs 3 7 = 0 ∧ requiredAfter txs 0 7 = 30 := by
+  decide
+
+/-- **rebased_index_changes_the_reserve** (the shape of seeded change C13e).  A sequential replay
+    that starts at committed boundary `start` must keep asking with the GLOBAL index: asked with
+    the position inside the suffix, account 7's own transaction at index 1 — already executed — is
+    charged again as a later cost. -/
+theorem rebased_index_changes_the_reserve :
+    let txs : List Tx := [⟨1, some 10⟩, ⟨7, some 30⟩, ⟨2, some 1⟩, ⟨1, some 5⟩]
+    let start := 2
+    let txid := 2
+    requiredAfter txs txid 7 = 0 ∧ requiredAfter txs (txid - start) 7 = 30 := by
+  decide
+
 end Grevm.Reserve
